@@ -6,7 +6,7 @@ Statement for statement: `push_delta`, `update`, `serial`, `delta_since`, the se
 checks of `PayloadSource::diff` and of `http::delta::handle_get_or_head`, and the
 scheduling arithmetic of `mark_update_done` / `refresh_wait`.
 
-The model is of the **repaired** code (see `fixes/C13-*.patch`, `fixes/C14-*.patch`);
+The model is of the **repaired** code (see `fixes/C13-*.patch` — two repairs —, `fixes/C14-*.patch`);
 the unrepaired arms are kept as `skipToOrig` / `deltaSinceOrig` / `pushDeltaOrig` for the
 negation witnesses in `Props/C13.lean`, `Props/C14.lean`.
 
@@ -109,9 +109,11 @@ def skipToOrig (c : Nat) : List PayloadDelta → Skip
     | some .eq => .rest ds
     | _ => skipToOrig c ds
 
-/-- `delta_since` parametrised by the loop. -/
-def History.deltaSinceWith (skip : Nat → List PayloadDelta → Skip) (h : History) (c : Nat) :
-    Option PayloadDelta :=
+/-- `delta_since` parametrised by the skipping loop and by whether the "client has the
+version the oldest retained delta was made from" test (`from_oldest`, second repair) is
+present. -/
+def History.deltaSinceWith (skip : Nat → List PayloadDelta → Skip) (fromOldest : Bool)
+    (h : History) (c : Nat) : Option PayloadDelta :=
   match h.deltas with
   | [] =>
     -- "We don't have deltas yet, so we are on serial 0, too."
@@ -121,18 +123,29 @@ def History.deltaSinceWith (skip : Nat → List PayloadDelta → Skip) (h : Hist
     else if d.serial = c then some (PayloadDelta.empty c)  -- current version
     else if d.serial = serialAdd c 1 then some d           -- one behind
     else
-      match skip c h.deltas.reverse with
+      -- `iter = self.deltas.iter().rev()`; `from_oldest` leaves it untouched
+      let r := h.deltas.reverse
+      let start :=
+        if fromOldest && (r.head?.map (·.serial) == some (serialAdd c 1)) then Skip.rest r
+        else skip c r
+      match start with
       | .refuse => none
       | .rest [] => some (PayloadDelta.empty c)            -- `iter.next() == None`
       | .rest (x :: xs) => some (xs.foldl PayloadDelta.merge x)
 
-/-- `PayloadHistory::delta_since` (repaired). -/
+/-- `PayloadHistory::delta_since` (repaired: incomparable serials refused, base version of
+the oldest retained delta answered). -/
 def History.deltaSince (h : History) (c : Nat) : Option PayloadDelta :=
-  h.deltaSinceWith skipTo c
+  h.deltaSinceWith skipTo true c
+
+/-- `delta_since` with the first repair only (no `from_oldest` test): refuses the version
+the oldest retained delta starts from. -/
+def History.deltaSinceNoBase (h : History) (c : Nat) : Option PayloadDelta :=
+  h.deltaSinceWith skipTo false c
 
 /-- `PayloadHistory::delta_since` on the pinned tree. -/
 def History.deltaSinceOrig (h : History) (c : Nat) : Option PayloadDelta :=
-  h.deltaSinceWith skipToOrig c
+  h.deltaSinceWith skipToOrig false c
 
 /-- `rtr_session`: `self.session as u16`. -/
 def History.rtrSession (h : History) : Nat := h.session % 65536
